@@ -62,6 +62,7 @@ Yield(v)    == [e |-> "yield", v |-> v]
 End         == [e |-> "end"]
 RaiseX(x)   == [e |-> "raise", x |-> x]
 Return(v)   == [e |-> "return", v |-> v]
+Await(x)    == [e |-> "await", x |-> x]      \* await a user-supplied awaitable whose value is x
 
 \* user callables are total functions of their arguments (fixed here) ...
 Truthy(x) == x.k # 0
@@ -452,6 +453,47 @@ Sorted(s, r, mode) ==
          [s |-> [pc |-> "got", acc |-> Append(s.acc, [x |-> s.x, key |-> r.v])], eff |-> Pull(1)]
 
 ---------------------------------------------------------------------------
+(* asynctools adapters (C19)                                               *)
+
+\* any_iter(x): x may be an awaitable of the iterable (par.outer), the items may be
+\* awaitables (par.aw); every layer is awaited exactly when it is needed
+AnyIter(s, r) ==
+  CASE s.pc = "init" ->
+         IF cfg.par.outer THEN [s |-> To("outer"), eff |-> Await(Node("iterable", <<>>))]
+         ELSE [s |-> To("got"), eff |-> Pull(1)]
+    [] s.pc \in {"outer", "yielded"} -> [s |-> To("got"), eff |-> Pull(1)]
+    [] s.pc = "got" ->
+         IF r.k = "stop" THEN [s |-> To("end"), eff |-> End]
+         ELSE IF cfg.par.aw THEN [s |-> To("awaited"), eff |-> Await(r.v)]
+         ELSE [s |-> To("yielded"), eff |-> Yield(r.v)]
+    [] s.pc = "awaited" -> [s |-> To("yielded"), eff |-> Yield(r.v)]
+
+\* await_each(awaitables): one awaitable is taken and awaited per item the consumer asks for
+AwaitEach(s, r) ==
+  CASE s.pc \in {"init", "yielded"} -> [s |-> To("got"), eff |-> Pull(1)]
+    [] s.pc = "got" ->
+         IF r.k = "stop" THEN [s |-> To("end"), eff |-> End]
+         ELSE [s |-> To("awaited"), eff |-> Await(r.v)]
+    [] s.pc = "awaited" -> [s |-> To("yielded"), eff |-> Yield(r.v)]
+
+\* apply(func, *args, **kwargs): positional awaitables in order, then keyword awaitables in
+\* order, then func on the awaited values; data[1] = positional, data[2] = keyword arguments
+Apply_(s, r) ==
+  LET np == Len(cfg.data[1])  nk == Len(cfg.data[2])
+      Go(i, acc) ==
+        IF i <= np THEN [s |-> [pc |-> "arg", i |-> i, acc |-> acc], eff |-> Await(Item(1, i))]
+        ELSE IF i <= np + nk THEN [s |-> [pc |-> "arg", i |-> i, acc |-> acc], eff |-> Await(Item(2, i - np))]
+        ELSE [s |-> To("called"), eff |-> Call("func", acc)] IN
+  CASE s.pc = "init" -> Go(1, <<>>)
+    [] s.pc = "arg" -> Go(s.i + 1, Append(s.acc, r.v))
+    [] s.pc = "called" -> [s |-> To("end"), eff |-> Return(r.v)]
+
+\* sync(f)(x): f is called once; its (awaited) result or its exception is the outcome
+Sync(s, r) ==
+  CASE s.pc = "init" -> [s |-> To("called"), eff |-> Call("func", <<Item(1, 1)>>)]
+    [] s.pc = "called" -> [s |-> To("end"), eff |-> Return(r.v)]
+
+---------------------------------------------------------------------------
 (* Dispatch and configuration space                                        *)
 
 Step(s, r) ==
@@ -486,6 +528,10 @@ Step(s, r) ==
     [] cfg.tool = "sorted"      -> Sorted(s, r, "sorted")
     [] cfg.tool = "nlargest"    -> Sorted(s, r, "nlargest")
     [] cfg.tool = "nsmallest"   -> Sorted(s, r, "nsmallest")
+    [] cfg.tool = "any_iter"    -> AnyIter(s, r)
+    [] cfg.tool = "await_each"  -> AwaitEach(s, r)
+    [] cfg.tool = "apply"       -> Apply_(s, r)
+    [] cfg.tool = "sync"        -> Sync(s, r)
 
 K1 == {1}            \* opaque items: only identity matters
 K01 == {0, 1}        \* truth values / predicate outcomes
@@ -554,10 +600,19 @@ ConfigsOf(t) ==
          {[tool |-> t, par |-> [key |-> b, n |-> m], data |-> d] :
              b \in BOOLEAN, m \in 0..(MaxLen + 1), d \in DataSets(1, K123)}
 
+    [] t = "any_iter" ->
+         {[tool |-> t, par |-> [outer |-> b, aw |-> v], data |-> d] : b \in BOOLEAN, v \in BOOLEAN, d \in DataSets(1, K1)}
+    [] t = "await_each" ->
+         {[tool |-> t, par |-> NoPar, data |-> d] : d \in DataSets(1, K1)}
+    [] t = "apply" ->
+         {[tool |-> t, par |-> NoPar, data |-> d] : d \in {dd \in DataSets(2, K1) : Len(dd[1]) + Len(dd[2]) <= MaxLen + 1}}
+    [] t = "sync" ->
+         {[tool |-> t, par |-> NoPar, data |-> <<<<1>>>>]}
+
 Configs == UNION {ConfigsOf(t) : t \in Tools}
 
 IsAggregation == cfg.tool \in {"all", "any", "sum", "reduce", "min", "max", "list", "tuple",
-                               "set", "dict", "sorted", "nlargest", "nsmallest"}
+                               "set", "dict", "sorted", "nlargest", "nsmallest", "apply", "sync"}
 
 \* how often the consumer may ask before it has to close (cycle never ends)
 NextCap == IF cfg.tool = "cycle" THEN 2 * MaxLen + 1 ELSE 1000
@@ -638,6 +693,15 @@ ToolStep ==
                \/ /\ Faults /\ fault = 0
                   /\ fault' = nuse + 1 /\ nuse' = nuse + 1
                   /\ Finish([ev |-> "call", f |-> eff.f, a |-> eff.a, res |-> "raise"])
+                  /\ UNCHANGED <<pos, sst, reply>>
+          [] eff.e = "await" ->
+               \/ /\ reply' = [k |-> "val", v |-> eff.x]
+                  /\ log' = Ev([ev |-> "await", x |-> eff.x, res |-> "ret"])
+                  /\ nuse' = nuse + 1
+                  /\ UNCHANGED <<pos, sst, phase, fault>>
+               \/ /\ Faults /\ fault = 0
+                  /\ fault' = nuse + 1 /\ nuse' = nuse + 1
+                  /\ Finish([ev |-> "await", x |-> eff.x, res |-> "raise"])
                   /\ UNCHANGED <<pos, sst, reply>>
           [] eff.e = "tau" ->
                /\ UNCHANGED <<pos, sst, log, phase, reply, nuse, fault>>
